@@ -14,7 +14,7 @@ import (
 	"verif/h/world"
 )
 
-var c02Behaviours = []string{"good", "revoked", "unknown", "http500", "refused", "html", "ldap", "https-good", "forged-good"}
+var c02Behaviours = []string{"good", "revoked", "unknown", "http500", "refused", "html", "ldap", "https-good", "forged-good", "good-for-other-serial"}
 
 type c02Case struct {
 	List     []int // behaviour index per responder position
@@ -115,7 +115,7 @@ func (k *c02Cast) unauthorised(ca *world.Ident) *world.Ident {
 	return world.Issue(ca, world.CertOpt{CN: "c02 not a responder", Serial: big.NewInt(778), KeyKind: "ec", KeyIdx: 7})
 }
 
-func (k *c02Cast) run(c c02Case) (v1, v2 Verdict, hits1, hits2 int) {
+func (k *c02Cast) run(c c02Case) (v0, v1, v2 Verdict, hits1, hits2 int) {
 	leaf, ca := k.leaf(c)
 	chain := world.Chain(leaf, ca, k.p.Root)
 	if c.Chain == 4 {
@@ -124,6 +124,12 @@ func (k *c02Cast) run(c c02Case) (v1, v2 Verdict, hits1, hits2 int) {
 	}
 	seqWorld(func() {
 		w := NewOW(c.Strict, c.CacheDur, nil, nil)
+		// event 0: the certificate is presented while every responder is down (nothing of this may be remembered)
+		for i, b := range c.List {
+			w.Net.Down(c02URL(i, b))
+		}
+		v0 = w.Lookup(leaf, chain)
+		w.Net.ResetHits()
 		for i, b := range c.List {
 			url := c02URL(i, b)
 			ans := world.OCSPAnswer{Serial: leaf.Cert.SerialNumber, Issuer: ca, Signer: ca, ThisUpdate: vsched.Epoch.Add(-time.Minute)}
@@ -151,6 +157,10 @@ func (k *c02Cast) run(c c02Case) (v1, v2 Verdict, hits1, hits2 int) {
 				ans.Status = xocsp.Good
 				ans.Signer, ans.EmbedCert = k.unauthorised(ca), true
 				w.Net.Serve(url, "forged-good", world.BuildOCSP(ans))
+			case "good-for-other-serial":
+				// an authentic, issuer-signed "good" - about a sibling certificate: no answer for the presented one
+				ans.Status, ans.Serial = xocsp.Good, big.NewInt(778899)
+				w.Net.Serve(url, "good-for-other-serial", world.BuildOCSP(ans))
 			case "ldap":
 				w.Net.Serve(url, "ldap", []byte("should never be asked"))
 			}
@@ -172,7 +182,7 @@ func (k *c02Cast) run(c c02Case) (v1, v2 Verdict, hits1, hits2 int) {
 func RunC02(tier string, args []string) int {
 	chk := fw.NewCheck("C02", tier, "exploration")
 	chk.Assumptions = []string{
-		"reference model: first authentic answer in AIA list order among http(s) responders decides; none => strict denies iff at least one http(s) responder is named; OCSP status 'unknown' is not judged (the statement leaves it open)",
+		"every case is the history: lookup with all responders down; responders behave as listed, lookup; all down again, lookup. Reference model: first authentic answer in AIA list order among http(s) responders decides; none => strict denies iff at least one http(s) responder is named; OCSP status 'unknown' is not judged (the statement leaves it open)",
 		"second call with all responders down: either the cached first verdict (only if the reference lifetime is > 0) or the unavailability rule",
 	}
 	k := &c02Cast{p: world.Std(), leafs: map[string]*world.Ident{}}
@@ -183,7 +193,7 @@ func RunC02(tier string, args []string) int {
 	judge := func(c c02Case) {
 		evals++
 		want, answered := c02Ref(c)
-		v1, v2, h1, h2 := k.run(c)
+		v0, v1, v2, h1, h2 := k.run(c)
 		got1, got2 := v1.String(), v2.String()
 		outcomes.Add(fmt.Sprintf("ref=%s got=%s/%s", want, got1, got2))
 		if len(c.List) > 0 {
@@ -223,9 +233,26 @@ func RunC02(tier string, args []string) int {
 				want = "FREE"
 			}
 		}
-		if v1.Panic != "" || v2.Panic != "" {
-			chk.Violation("C02|panic|"+normaliseNumbers(firstLines(v1.Panic+v2.Panic, 1)), "panic: "+v1.Panic+v2.Panic+" ["+c.String()+"]", c)
+		if v0.Panic != "" || v1.Panic != "" || v2.Panic != "" {
+			chk.Violation("C02|panic|"+normaliseNumbers(firstLines(v0.Panic+v1.Panic+v2.Panic, 1)), "panic: "+v0.Panic+v1.Panic+v2.Panic+" ["+c.String()+"]", c)
 			return
+		}
+		if want != "FREE" {
+			// event 0 (all responders down): strict with an http(s) responder named denies, otherwise accepts
+			httpN := 0
+			for _, b := range c.List {
+				if c02Behaviours[b] != "ldap" {
+					httpN++
+				}
+			}
+			w0 := "OK"
+			if c.Strict && httpN > 0 {
+				w0 = "ERR"
+			}
+			if got0 := v0.String(); got0 != w0 {
+				chk.Violation("C02|call0|want="+w0+" got="+got0+"|"+feat(), fmt.Sprintf("lookup with every responder down: reference says %s, implementation %s (%s) [%s]", w0, got0, v0.Err, c), c)
+				return
+			}
 		}
 		// strict mode is specified one-directionally ("accepted only if ..."): a denial where the reference would
 		// accept (or deny for another reason) is not a violation of the statement
@@ -312,7 +339,7 @@ func RunC02(tier string, args []string) int {
 	cov := fw.Coverage{
 		"evaluations":         evals,
 		"distinct_nontrivial": nontrivial,
-		"rule":                "all responder lists of length 0..3 (quick, 820 lists) / 0..4 (thorough, 7381 lists) over 9 behaviours x aia_strict(2) x default cache duration {0,10m} x nextUpdate {absent,+1h} (thorough) x chain shape (3 quick / 5 thorough, incl. a chain which does not contain the issuer); each case is a 2-event history on a fresh checker: lookup, all responders down, lookup. Non-trivial = at least one responder named.",
+		"rule":                "all responder lists of length 0..3 (quick, 1111 lists) / 0..4 (thorough, 11111 lists) over 10 behaviours x aia_strict(2) x default cache duration {0,10m} x nextUpdate {absent,+1h} (thorough) x chain shape (3 quick / 5 thorough, incl. a chain which does not contain the issuer); each case is a history on a fresh checker: all responders down, lookup; responders as listed, lookup; all down, lookup. Non-trivial = at least one responder named.",
 		"samples":             samples,
 		"outcome_classes":     outcomes.Counts(),
 		"exhaustive":          true,
